@@ -94,7 +94,7 @@ fn run(ctx: &mut Ctx) {
     ctx.bound(
         "space",
         format!(
-            "null pointer; every total-size word 0..={} x reserved word {{0,8,0xFFFFFFFF}} x last 8 bytes of the declared region = (type word in {{0,1,8,0x100,0x10000,0x01000000,0x80000000,0xFFFFFFFF}}) x (size word in {{8,0,7,9,16,0x108,0x10008,0x01000008,0x80000008,0xFFFFFFFF}}); for total sizes 16, 24 and 4096 additionally every 1-bit and 2-bit flip of a valid end tag; region placed flush against a PROT_NONE guard page",
+            "null pointer; every total-size word 0..={} x reserved word {{0, 8, 0xFFFFFFFF, the total size itself, its complement, its negation}} x last 8 bytes of the declared region = (type word in {{0,1,8,0x100,0x10000,0x01000000,0x80000000,0xFFFFFFFF}}) x (size word in {{8,0,7,9,16,0x108,0x10008,0x01000008,0x80000008,0xFFFFFFFF}}); for total sizes 16, 24 and 4096 additionally every 1-bit and 2-bit flip of a valid end tag; region placed flush against a PROT_NONE guard page",
             max_total
         ),
     );
@@ -119,7 +119,15 @@ fn run(ctx: &mut Ctx) {
     for total in 0..=max_total {
         let span = round8(total).max(8);
         let p = unsafe { arena.end().sub(span) };
-        for &res in &RESERVED {
+        // the reserved word: fixed values, and values that stand in a relation to the total-size word
+        let t32 = total as u32;
+        let mut reserved: Vec<u32> = RESERVED.to_vec();
+        for r in [t32, !t32, 0u32.wrapping_sub(t32)] {
+            if !reserved.contains(&r) {
+                reserved.push(r);
+            }
+        }
+        for &res in &reserved {
             for &tw in &TYPW {
                 for &sw in &SIZW {
                     let describe = || {
